@@ -594,6 +594,27 @@ static void do_sizes(char* line) {
   if (a_live != 0) ob_printf(" LEAK=%ld", a_live);
 }
 
+/* forged-length trees handed to cbor_serialize with small buffers: every declared string length of the case is
+   >= 2^32, so nothing can fit and nothing of the (tiny) real payload may be copied: the result is 0 for every n */
+static void do_sizesser(char* line) {
+  a_reset(); a_live = 0;
+  cbor_item_t* it = item_of_sexp(line);
+  if (!it) { ob_printf("BADCASE"); return; }
+  static const size_t ns[] = {0, 1, 9, 10, 18, 64};
+  ob_printf("ser=");
+  for (size_t i = 0; i < sizeof(ns) / sizeof(ns[0]); i++) {
+    size_t n = ns[i];
+    unsigned char* b = malloc(n + 16);
+    memset(b, 0xA5, n + 16);
+    size_t r = cbor_serialize(it, b, n);
+    ob_printf("%s%zu", i ? "," : "", r);
+    for (size_t k = n; k < n + 16; k++) if (b[k] != 0xA5) { ob_printf(" OVERWRITE@%zu+%zu", n, k - n); break; }
+    free(b);
+  }
+  cbor_decref(&it);
+  if (a_live != 0) ob_printf(" LEAK=%ld", a_live);
+}
+
 /* ------------------------------------------------------------------ stream: ser */
 static void do_ser(char* line) {
   a_reset(); a_live = 0;
@@ -988,6 +1009,7 @@ int main(int argc, char** argv) {
   else if (!strcmp(stream, "copy")) f = do_copy;
   else if (!strcmp(stream, "ser")) f = do_ser;
   else if (!strcmp(stream, "sizes")) f = do_sizes;
+  else if (!strcmp(stream, "sizesser")) f = do_sizesser;
   else if (!strcmp(stream, "rt")) f = do_rt;
   else if (!strcmp(stream, "seq")) f = do_seq;
   else if (!strcmp(stream, "bigsuffix")) f = do_bigsuffix;
